@@ -1,7 +1,7 @@
 """C18 - randomised steps are deterministic in their inputs and the given generator/seed."""
 import ast
 
-from engine.astutil import U, calls, kwargs, single_defs, inline, walk_own, call_name, attr_tail, enclosing_map
+from engine.astutil import U, calls, kwargs, single_defs, inline, walk_own, call_name, attr_tail, enclosing_map, names_in
 from engine.repo import AnalysisError, ORCH_MOD
 
 EXPLANATION = (
@@ -20,8 +20,9 @@ RULES = {
     "R4": "set_rng must matter: the stored generator is read on the step/sample path",
     "R5": "a CLI defining --seed and reaching a randomised callee wires it",
     "R6": "no lru_cache/cache-memoised function returns SeedSequence/Generator state",
+    "R7": "nothing derived from a passed generator is stored on self / cls / a module global by a stateless randomised operation",
 }
-MIN = {"R1": 1, "R2": 3, "R3": 20, "R4": 3, "R5": 4, "R6": 1}
+MIN = {"R1": 1, "R2": 3, "R3": 20, "R4": 3, "R5": 4, "R6": 1, "R7": 10}
 TRUSTED = ["numpy Generator methods are deterministic functions of the generator state", "import aliases resolved from module-level imports"]
 TECHNIQUE = "resolved-callee who-may-call rule (API allow-list), parameter-threading check over the call graph, def-use of the stored generator"
 LEVEL_TEXT = ("Determinism in (inputs, generator) is a discipline visible in the code: every draw must come from the "
@@ -294,6 +295,67 @@ def r6(ctx):
         i.rule == ctx.rid("R6") and i.verdict == "violated" for i in ctx.insts) else f"{n} memoised function(s) scanned")
 
 
+def r7(ctx):
+    """a draw must not outlive the call that was handed the generator: in a function with an `rng` parameter whose class does not own a
+    generator (no set_rng), nothing that depends on `rng` may be stored on self / cls / a module global.  Otherwise a later call with
+    identical inputs and an identically seeded generator would reuse the earlier draw and ignore (or consume differently) its generator."""
+    R = ctx.R
+    n = 0
+    for q, f in sorted(R.funcs.items()):
+        if "rng" not in f.params or f.mod.endswith("_test") or ".tests" in f.mod:
+            continue
+        owns = False
+        if f.cls:
+            owns = any("set_rng" in R.methods(k) for k in R.mro(f"{f.mod}.{f.cls}") if k in R.classes)
+        if owns or f.name in ("set_rng", "__init__"):
+            continue
+        n += 1
+        glob = {x for g in walk_own(f.node) if isinstance(g, ast.Global) for x in g.names}
+        tainted = {"rng"}
+        changed = True
+        assigns = [a for a in walk_own(f.node) if isinstance(a, (ast.Assign, ast.AugAssign, ast.AnnAssign, ast.For))]
+        while changed:
+            changed = False
+            for a in assigns:
+                val = a.iter if isinstance(a, ast.For) else a.value
+                if val is None or not (names_in(val) & tainted):
+                    continue
+                tg = a.targets if isinstance(a, ast.Assign) else [a.target]
+                for t in tg:
+                    for x in ast.walk(t):
+                        if isinstance(x, ast.Name) and isinstance(x.ctx, ast.Store) and x.id not in tainted:
+                            tainted.add(x.id)
+                            changed = True
+        bad = []
+        for a in assigns:
+            if isinstance(a, ast.For):
+                continue
+            val = a.value
+            if val is None or not (names_in(val) & tainted):
+                continue
+            tg = a.targets if isinstance(a, ast.Assign) else [a.target]
+            for t in tg:
+                root = t
+                while isinstance(root, (ast.Attribute, ast.Subscript)):
+                    root = root.value
+                if isinstance(root, ast.Name) and t is not root and root.id in ("self", "cls"):
+                    bad.append(U(t))
+                elif isinstance(root, ast.Name) and root.id in glob:
+                    bad.append(U(t))
+        for c in calls(f.node):
+            # self.cache.update(..) / self._memo.setdefault(k, draw) / self.x.append(draw)
+            if isinstance(c.func, ast.Attribute) and c.func.attr in ("update", "setdefault", "append", "extend", "add", "__setitem__", "insert"):
+                root = c.func.value
+                while isinstance(root, (ast.Attribute, ast.Subscript)):
+                    root = root.value
+                if isinstance(root, ast.Name) and root.id in ("self", "cls") and c.func.value is not root \
+                        and any(names_in(a_) & tainted for a_ in list(c.args) + [k.value for k in c.keywords]):
+                    bad.append(U(c.func))
+        ctx.check("R7", f"{f.site()}::draws-do-not-outlive-the-call", not bad, "nothing derived from the passed generator is stored on the instance / class / module",
+                  f"a value derived from `rng` is kept in {sorted(set(bad))}: a later call with an identically seeded generator can reuse it instead of drawing")
+    ctx.need(n >= 10, f"only {n} functions with an rng parameter found")
+
+
 def run(ctx):
     r1(ctx)
     r2(ctx)
@@ -301,9 +363,10 @@ def run(ctx):
     r4(ctx)
     r5(ctx)
     r6(ctx)
+    r7(ctx)
 
 
-RULE_FUNCS = [r1, r2, r3, r4, r5, r6]
+RULE_FUNCS = [r1, r2, r3, r4, r5, r6, r7]
 
 
 def _rep(a, b):
@@ -315,6 +378,7 @@ def _rep(a, b):
 
 
 WITNESSES = [
+    ("random scorer memoises its scores on the instance", "batchie.scoring.rand", _rep("        scores = {k: rng.random() for k in plates.keys()}\n        return scores", "        if getattr(self, '_scores', None) is None:\n            self._scores = {k: rng.random() for k in plates.keys()}\n        return self._scores"), ["R7"]),
     ("generator uses global permutation", "batchie.retrospective", _rep("new_plate_names = rng.permutation(to_permute.plate_names)", "new_plate_names = np.random.permutation(to_permute.plate_names)"), ["R1"]),
     ("smoother creates its own generator", "batchie.retrospective", _rep("        results = []\n\n        for plate in screen.plates:\n            if plate.size < self.plate_size:", "        results = []\n        rng = np.random.default_rng()\n\n        for plate in screen.plates:\n            if plate.size < self.plate_size:"), ["R2"]),
     ("scoring CLI seed fix reverted", "batchie.cli.calculate_scores", _rep("        rng=get_prng_from_seed_argument(args),\n", ""), ["R3", "R5"]),
